@@ -220,7 +220,7 @@ pub fn run(run: &Run) {
     );
     run.assume("parse-back is asserted only for representable configurations (payload kind consistent with extended-header presence and message type); add_storage_header(None): the clock value is not asserted");
     run.regressions(&replay);
-    run.random("configs", run.cases(200_000, 3_000_000), 0.25, strategy, check);
+    run.random("configs", run.cases(300_000, 4_000_000), 0.25, strategy, check);
 }
 
 pub fn replay(_section: &str, case: &Json) -> Option<CheckResult> {
